@@ -67,9 +67,10 @@ class BatchScenario:
                                imputer=ImputerProxy(MarginalImputer(self.model, "joint", st), self.clock))
             self.kw = {"original_sage": self.original, "verbose": False}
         else:
-            st = storage_proxy(IntervalStorage, self.clock, True)(size=3, store_targets=True)
+            win = 3 if seed % 3 else 16
+            st = storage_proxy(IntervalStorage, self.clock, True)(size=win, store_targets=True)
             self.e = IntervalSage(self.model, self.names, self.loss, n_inner_samples=n_inner, interval_length=rnd.choice([1, 2]),
-                                  storage_length=3, storage=st,
+                                  storage_length=win, storage=st,
                                   imputer=ImputerProxy(MarginalImputer(self.model, "joint", st), self.clock))
             self.kw = {"verbose": False}
         self.t = 0
@@ -137,7 +138,7 @@ def main(run):
         cfgd = sc.cfg
         is_sage = cfgd["explainer"] == "sage" and cfgd.get("exact", True)
         run.count("configs")
-        nsteps = STREAM[run.tier] if what == "incr" else 5
+        nsteps = STREAM[run.tier] if what == "incr" else (5 if seed % 3 else 14)     # some batch / interval runs over >= 10 stored samples
         stop = False
         for t in range(nsteps):
             x, y = sc.next_obs()
@@ -149,7 +150,8 @@ def main(run):
             K = twin.clock.callbacks
             sites = [e for e in twin.clock.log]
             before = sc.snapshot()
-            for k in range(1, K + 1):
+            positions = range(1, K + 1) if K <= 80 else sorted(rnd.sample(range(1, K + 1), 50) + [1, K])
+            for k in positions:
                 b = copy.deepcopy(sc)
                 rng_restore(pre)
                 b.clock.fail_at_next = k
@@ -190,8 +192,11 @@ def main(run):
                     same_storage = twin2.storage is not None and \
                         [dict(r) for r in twin2.storage.get_data()[0]] == [dict(r) for r in b.storage.get_data()[0]]
                     for r in range(3):
-                        x2, y2 = b.next_obs()
-                        twin2.next_obs()
+                        if r == 0 and (k + t) % 2 == 0:
+                            x2, y2 = x, y                  # the most natural continuation: the failed observation is submitted again
+                        else:
+                            x2, y2 = b.next_obs()
+                            twin2.next_obs()
                         st_rng = rng_state()
                         try:
                             b.step(x2, y2)
